@@ -27,13 +27,18 @@ pub struct ReaderTail {
     last_line_chars: Cell<usize>,
     /// The reader has stopped delivering (end of input, error or size limit).
     ended: Cell<bool>,
+    /// Line breaks delivered so far, counted as the parser counts them (LF, CR, CRLF as one).
+    breaks: Cell<usize>,
+    /// The last character delivered was a CR (a following LF belongs to the same break).
+    last_was_cr: Cell<bool>,
 }
 
 impl ReaderTail {
-    /// `(total characters, characters in the last line)` once the stream has ended inside a line.
+    /// `(number of the unterminated last line, characters in it)` once the stream has ended
+    /// inside a line.
     pub(crate) fn ended_in_line(&self) -> Option<(usize, usize)> {
         (self.ended.get() && self.last_line_chars.get() > 0)
-            .then(|| (self.chars.get(), self.last_line_chars.get()))
+            .then(|| (self.breaks.get() + 1, self.last_line_chars.get()))
     }
 }
 
@@ -86,7 +91,12 @@ impl<R: Read> Iterator for ChunkedChars<R> {
                 self.tail.chars.set(self.tail.chars.get() + 1);
                 if c == '\n' || c == '\r' {
                     self.tail.last_line_chars.set(0);
+                    if c == '\r' || !self.tail.last_was_cr.get() {
+                        self.tail.breaks.set(self.tail.breaks.get() + 1);
+                    }
+                    self.tail.last_was_cr.set(c == '\r');
                 } else {
+                    self.tail.last_was_cr.set(false);
                     self.tail.last_line_chars.set(self.tail.last_line_chars.get() + 1);
                 }
                 if self.at_line_start && c != '\u{feff}' {
